@@ -169,8 +169,14 @@ def main():
         # changed obligations: full portfolio on the first few, the rest stay as stage 1 left them
         _add(smt.discharge(diff[:12], timeout_s=timeout, seed=a.seed % 1000, stages=("z3-mbqi", "cvc5")))
     if a.tier == "thorough":
-        # every discharged obligation is re-checked by cvc5 as well
-        _add(smt.discharge([g for g in goals if g.status == "unsat"], timeout_s=timeout, stages=("cvc5",), both=True))
+        # every discharged obligation is re-checked by cvc5 as well (second opinion, 30 s each: cvc5 answering `unknown`
+        # changes nothing, cvc5 answering `sat` on an obligation z3 discharged is a solver disagreement -> checker error)
+        _add(smt.discharge([g for g in goals if g.status == "unsat"], timeout_s=float(os.environ.get("VERIF_CVC5_RECHECK_TIMEOUT") or 30),
+                           stages=("cvc5",), both=True))
+        disagreements = [g.name for g in goals if g.status == "unsat" and getattr(g, "cvc5", None) and g.cvc5[0] == "sat"]
+        if disagreements:
+            print("SOLVER-DISAGREEMENT (z3 unsat, cvc5 sat): %s" % disagreements[:5])
+            return 3
     import z3
     vacuous = []
     for key, hyps in E.covers:
@@ -235,7 +241,11 @@ def main():
         for d_ in m.decls():
             if d_.name() == req["model_var"]:
                 v_ = m[d_]
-                val = v_.as_string() if _z3.is_string_value(v_) else str(v_)
+                if _z3.is_string_value(v_):
+                    from pyvc.values import pystr as _pystr
+                    val = _pystr(v_)
+                else:
+                    val = str(v_)
         if val is None:
             continue
         req[req["as"]] = val
